@@ -3,6 +3,7 @@ import SwiftMT.MParser
 import SwiftMT.Calendar
 import SwiftMT.Amount
 import SwiftMT.Headers
+import SwiftMT.Classify
 import Driver.Hex
 /-
 Line-protocol driver over the executable model: one request per line on stdin, one answer per line on
@@ -119,6 +120,13 @@ def handle (args : List String) : String :=
   | ["blk", n, i] => match n.toNat?, unhex i with
     | some n, some t => (match extractBlock t n with | some b => s!"some {hex b}" | none => "none")
     | _, _ => "bad-op"
+  | "cls" :: ty :: mur :: flag :: sb :: stp :: lines =>
+    let opt (s : String) : Option (Option (List Char)) := if s == "~" then some none else (unhex s).map some
+    match ty.toNat?, opt mur, opt flag, lines.mapM unhex with
+    | some ty, some mur, some flag, some ls =>
+      let x : ClsInput := ⟨ty, ls, mur, flag, sb == "1", stp == "1"⟩
+      s!"{msgReject x} {msgReturn x} {msgCover x} {msgStp x} {pluginMethod x}"
+    | _, _, _, _ => "bad-op"
   | "mp" :: i :: ops => match unhex i with
     | some input => ";".intercalate (mpRun (PState.init input) ops)
     | none => "bad-op"
